@@ -206,6 +206,10 @@ type Run struct {
 	clockLog   []*Term
 	randInts   []*Term
 	pairs      []*pairEntry
+	background []*resolvedCall // goroutines started by the code under test (stub set "bgo")
+	bgFrames   []*Frame
+	bgBudget   int // wake-ups the running background goroutine may still take
+	bgActive   bool
 	recoverFrames int // active frames that defer a recover()
 	secret     map[*Term]bool
 	secretList []*Term
@@ -1058,7 +1062,12 @@ func (r *Run) exec(fr *Frame, ins ssa.Instruction) {
 		rc := r.resolveCall(fr, &x.Call)
 		fr.defers = append(fr.defers, func() { r.invoke(fr, rc, site) })
 	case *ssa.Go:
-		// background goroutines are not started (documented exclusion)
+		// background goroutines are not started by themselves; with stub set "bgo" they are recorded and the
+		// harness runs them step by step (zzverif.Background): each runs until it sleeps
+		if r.inst.stubSet["bgo"] {
+			r.background = append(r.background, r.resolveCall(fr, &x.Call))
+			r.bgFrames = append(r.bgFrames, fr)
+		}
 	case *ssa.MakeInterface:
 		fr.set(x, &IfaceV{t: x.X.Type(), v: r.get(fr, x.X)})
 	case *ssa.ChangeInterface:
